@@ -160,3 +160,5 @@ fn parse_prefix(t: &[&str], pos: &mut usize) -> Option<Expr> {
         _ => return None,
     })
 }
+
+pub fn parse_prefix_pub(t: &[&str], pos: &mut usize) -> Option<Expr> { parse_prefix(t, pos) }
